@@ -783,16 +783,6 @@ func (p *pass) invariants(o op, phase string, pre, post *snapshot) {
 					p.violation("C13/abandoned-key/in-document", fmt.Sprintf("%s was created for a version that was abandoned (%s) but is in the document %s resolves to", vm, by, d.DID), o, phase, pre, post, nil)
 				}
 			}
-			if d.Method == "nuts" {
-				if d.NetErr != "" {
-					p.violation("C13/sql-network-diverge/"+o.Kind, fmt.Sprintf("%s has %d version(s) in the database but does not resolve on the network side: %s", d.DID, len(d.Versions), d.NetErr), o, phase, pre, post, nil)
-				} else if !reflect.DeepEqual(d.VMs, d.NetVMs) || !reflect.DeepEqual(d.Services, d.NetServices) {
-					p.violation("C13/sql-network-diverge/"+o.Kind, fmt.Sprintf("the database and the network side show different documents for %s: keys %v / %v, services %v / %v", d.DID, d.VMs, d.NetVMs, d.Services, d.NetServices), o, phase, pre, post, nil)
-				}
-				if d.NetTxs > 1 {
-					p.count("conflicted_network_documents", 1)
-				}
-			}
 		}
 		if len(ss.DIDs) != len(methods) || perMethod["web"] != 1 || perMethod["nuts"] != 1 {
 			p.violation("C13/list-dids/not-one-full-set", fmt.Sprintf("subject %s lists %v: not exactly one DID per enabled method", name, set), o, phase, pre, post, nil)
@@ -811,6 +801,25 @@ func (p *pass) invariants(o op, phase string, pre, post *snapshot) {
 	}
 	if post.ChangeLog != 0 && !p.pendingOK {
 		p.violation("C13/change-log-remains/"+o.Kind, fmt.Sprintf("%d change record(s) remain after the rollback sweep", post.ChangeLog), o, phase, pre, post, nil)
+	}
+}
+
+// agreement: at a quiescent point the did:nuts document in the database is the one the network side resolves (otherwise one DID of the subject shows
+// another version than its siblings to everyone who resolves it over the network).
+func (p *pass) agreement(o op, phase string, pre, post *snapshot) {
+	for _, d := range post.Subjects[o.Subject].DIDs {
+		if d.ResolveErr == "" {
+			if d.Method == "nuts" {
+				if d.NetErr != "" {
+					p.violation("C13/sql-network-diverge/"+o.Kind, fmt.Sprintf("%s has %d version(s) in the database but does not resolve on the network side: %s", d.DID, len(d.Versions), d.NetErr), o, phase, pre, post, nil)
+				} else if !reflect.DeepEqual(d.VMs, d.NetVMs) || !reflect.DeepEqual(d.Services, d.NetServices) {
+					p.violation("C13/sql-network-diverge/"+o.Kind, fmt.Sprintf("the database and the network side show different documents for %s: keys %v / %v, services %v / %v", d.DID, d.VMs, d.NetVMs, d.Services, d.NetServices), o, phase, pre, post, nil)
+				}
+				if d.NetTxs > 1 {
+					p.count("conflicted_network_documents", 1)
+				}
+			}
+		}
 	}
 }
 
@@ -989,6 +998,9 @@ func (p *pass) compare(o op, phase, class string, tookEffect bool, pre, post *sn
 				}
 			}
 		}
+	}
+	if !p.broken {
+		p.agreement(o, phase, pre, post)
 	}
 	ok := !p.broken
 	if ok {
